@@ -261,6 +261,13 @@ func (g *gen) addEnum(pkg *Pkg, file *File, constFile *File) *tinfo {
 		}}})
 		g.o.class("enum:unexported_alias_of_exported")
 	}
+	if g.o.EnumStress && firstExported != nil && rapid.IntRange(0, 5).Draw(t, "localShadow") == 0 {
+		// a function-local constant and variable carrying the name of a member (legal shadowing, with comments of their own,
+		// one of them the opt-out marker): not declarations of the package, so the enum is unchanged
+		m := firstExported.Names[0]
+		constFile.Raw += fmt.Sprintf("\nfunc zzShadow%s() int {\n\tconst %s = 7 // gomacro:no-enum\n\tvar zz%s = %s // local spelling\n\treturn zz%s\n}\n", m, m, m, m, m)
+		g.o.class("enum:member_name_shadowed_in_a_function")
+	}
 	if rapid.IntRange(0, 9).Draw(t, "optOut") == 0 {
 		on := g.constName(pkg, name, 21, true, "optOutName")
 		v := "0"
